@@ -17,18 +17,23 @@ struct V<'a> {
     doc: &'a ExecDoc,
     /// (error, clause): the clause names which part of the rule failed (structural, for attribution)
     errs: Vec<(VError, String)>,
-    /// true while the directives / arguments of a `__typename` field node are being checked
-    on_typename: bool,
+    /// set while a part of the document with a special syntactic context is being checked: the
+    /// directives / sub-selection of a `__typename` field node (`@__typename`), the directives of a
+    /// variable definition (`@VARIABLE_DEFINITION`), the literal parts of an argument value that also
+    /// contains a variable (`@with-variable`); appended to the clause of every error raised there
+    context: Option<&'static str>,
 }
 
 impl<'a> V<'a> {
     fn e(&mut self, rule: &'static str, pos: Pos, msg: impl Into<String>) {
-        self.errs.push((VError { rule, msg: msg.into(), pos }, String::new()));
+        self.ec(rule, "", pos, msg);
     }
     fn ec(&mut self, rule: &'static str, clause: impl Into<String>, pos: Pos, msg: impl Into<String>) {
         let mut c: String = clause.into();
-        if self.on_typename {
-            c.push_str("@__typename");
+        if let Some(x) = self.context {
+            if !c.ends_with(x) && c != x[1..] {
+                c.push_str(x);
+            }
         }
         self.errs.push((VError { rule, msg: msg.into(), pos }, c));
     }
@@ -43,7 +48,7 @@ pub fn validate(s: &Schema, doc: &ExecDoc) -> Vec<VError> {
 /// SingleRootField, `same-scope/different-condition/field` for FieldSelectionMerging). Empty when
 /// the rule has a single clause.
 pub fn validate_clauses(s: &Schema, doc: &ExecDoc) -> Vec<(VError, String)> {
-    let mut v = V { s, doc, errs: Vec::new(), on_typename: false };
+    let mut v = V { s, doc, errs: Vec::new(), context: None };
     v.operations();
     v.fragments_decl();
     for op in doc.ops() {
@@ -163,9 +168,9 @@ impl<'a> V<'a> {
         for s in sel {
             match s {
                 Selection::Field(f) => {
-                    self.on_typename = f.name.s == "__typename";
+                    self.context = if f.name.s == "__typename" { Some("@__typename") } else { None };
                     self.directives(&f.directives, "FIELD");
-                    self.on_typename = false;
+                    self.context = None;
                     let Some(parent) = parent else {
                         self.selection_set(&f.sel, None);
                         continue;
@@ -250,7 +255,17 @@ impl<'a> V<'a> {
             }
             match defs.iter().find(|d| d.name == k.s) {
                 None => self.ec("ArgumentNames", format!("unknown-argument-on-{site}"), k.pos, format!("unknown argument {}", k.s)),
-                Some(d) => self.value_of_type(&d.ty, v),
+                Some(d) => {
+                    // attribution only: the literal parts of an argument value that also contains a variable
+                    let mark = self.context.is_none() && !matches!(v.v, Value::Var(_)) && contains_var(&v.v);
+                    if mark {
+                        self.context = Some("@with-variable");
+                    }
+                    self.value_of_type(&d.ty, v);
+                    if mark {
+                        self.context = None;
+                    }
+                }
             }
         }
         for d in defs {
@@ -316,14 +331,21 @@ impl<'a> V<'a> {
                         };
                         let fields = fields.clone();
                         let mut seen = BTreeSet::new();
-                        for (k, x) in o {
+                        for (idx, (k, x)) in o.iter().enumerate() {
                             if !seen.insert(k.s.clone()) {
                                 self.e("InputObjectFieldUniqueness", k.pos, format!("duplicate input field {}", k.s));
+                            }
+                            // attribution only: an entry whose name is repeated later in the same literal
+                            let shadowed = o[idx + 1..].iter().any(|(k2, _)| k2.s == k.s) && matches!(self.context, None | Some("@with-variable"));
+                            let outer = self.context;
+                            if shadowed {
+                                self.context = Some("@shadowed-duplicate");
                             }
                             match fields.iter().find(|f| f.name == k.s) {
                                 None => self.e("InputObjectFieldNames", k.pos, format!("unknown input field {} of {n}", k.s)),
                                 Some(f) => self.value_of_type(&f.ty, x),
                             }
+                            self.context = outer;
                         }
                         for f in &fields {
                             if f.ty.is_non_null() && f.default.is_none() && !o.iter().any(|(k, _)| k.s == f.name) {
@@ -331,9 +353,10 @@ impl<'a> V<'a> {
                             }
                         }
                         if *one_of {
-                            if o.len() != 1 {
+                            // a repeated field name is 5.6.3's business; the arity is counted on distinct names
+                            if seen.len() != 1 {
                                 self.ec("OneOfInputObjects", "not-exactly-one-field", v.pos, "oneOf input object needs exactly one field");
-                            } else if o[0].1.v == Value::Null {
+                            } else if o.len() == 1 && o[0].1.v == Value::Null {
                                 self.ec("OneOfInputObjects", "null-field", v.pos, "oneOf input object field must not be null");
                             }
                         }
@@ -440,7 +463,9 @@ impl<'a> V<'a> {
             } else if let Some(def) = &d.default {
                 self.value_of_type(&d.ty, def);
             }
+            self.context = Some("@VARIABLE_DEFINITION");
             self.directives(&d.directives, "VARIABLE_DEFINITION");
+            self.context = None;
         }
         // usages, following fragment spreads transitively
         let mut uses: Vec<(String, Pos, Option<(Type, bool)>)> = Vec::new(); // name, pos, (location type, location has default)
@@ -449,8 +474,10 @@ impl<'a> V<'a> {
         self.var_uses_sel(&op.sel, root.as_deref(), &mut uses, &mut visited);
         self.var_uses_directives(&op.directives, &mut uses);
         let mut used = BTreeSet::new();
+        let var_ctx = self.var_contexts();
         for (name, pos, loc) in &uses {
             used.insert(name.clone());
+            self.context = var_ctx.get(pos).copied();
             match defs.get(name) {
                 None => self.e("AllVariableUsesDefined", *pos, format!("variable ${name} is not defined")),
                 Some(d) => {
@@ -469,11 +496,60 @@ impl<'a> V<'a> {
                 }
             }
         }
+        self.context = None;
         for d in &op.vars {
             if !used.contains(&d.name.s) {
                 self.e("AllVariablesUsed", d.pos, format!("variable ${} is never used", d.name.s));
             }
         }
+    }
+
+    /// attribution only: the variable references that sit inside the arguments / directives of a
+    /// `__typename` field node, or inside an input object entry whose name is repeated later in the
+    /// same literal
+    fn var_contexts(&self) -> BTreeMap<Pos, &'static str> {
+        fn val(v: &PValue, ctx: Option<&'static str>, out: &mut BTreeMap<Pos, &'static str>) {
+            match &v.v {
+                Value::Var(_) => {
+                    if let Some(c) = ctx {
+                        out.insert(v.pos, c);
+                    }
+                }
+                Value::List(l) => l.iter().for_each(|x| val(x, ctx, out)),
+                Value::Object(o) => {
+                    for (i, (k, x)) in o.iter().enumerate() {
+                        let shadowed = o[i + 1..].iter().any(|(k2, _)| k2.s == k.s);
+                        val(x, ctx.or(if shadowed { Some("@shadowed-duplicate") } else { None }), out);
+                    }
+                }
+                _ => {}
+            }
+        }
+        fn sel(s: &[Selection], out: &mut BTreeMap<Pos, &'static str>) {
+            for x in s {
+                match x {
+                    Selection::Field(f) => {
+                        let ctx = if f.name.s == "__typename" { Some("@__typename") } else { None };
+                        f.args.iter().for_each(|(_, v)| val(v, ctx, out));
+                        f.directives.iter().for_each(|d| d.args.iter().for_each(|(_, v)| val(v, ctx, out)));
+                        sel(&f.sel, out);
+                    }
+                    Selection::Inline(i) => {
+                        i.directives.iter().for_each(|d| d.args.iter().for_each(|(_, v)| val(v, None, out)));
+                        sel(&i.sel, out)
+                    }
+                    Selection::Spread(sp) => sp.directives.iter().for_each(|d| d.args.iter().for_each(|(_, v)| val(v, None, out))),
+                }
+            }
+        }
+        let mut out = BTreeMap::new();
+        for d in &self.doc.defs {
+            match d {
+                ExecDef::Op(o) => sel(&o.sel, &mut out),
+                ExecDef::Frag(f) => sel(&f.sel, &mut out),
+            }
+        }
+        out
     }
 
     /// §5.8.5 IsVariableUsageAllowed
@@ -569,37 +645,39 @@ impl<'a> V<'a> {
     // itself (clause scope `same-scope`); phase 2 adds the recursion into merged sub-selection sets
     // (step 2.b.iv), whose additional conflicts get scope `merged-subselection`.
     fn overlapping(&mut self) {
-        let mut sets: Vec<(&'a [Selection], Option<String>)> = Vec::new();
+        let mut sets: Vec<(&'a [Selection], Option<String>, bool)> = Vec::new();
         for op in self.doc.ops() {
             let root = self.s.root(op.kind).map(|s| s.to_string());
-            self.all_sets(&op.sel, root, &mut sets);
+            self.all_sets(&op.sel, root, false, &mut sets);
         }
         for f in self.doc.frags() {
             let cond = if self.s.is_composite(&f.cond.s) { Some(f.cond.s.clone()) } else { None };
-            self.all_sets(&f.sel, cond, &mut sets);
+            self.all_sets(&f.sel, cond, false, &mut sets);
         }
         let mut reported: BTreeSet<(Pos, Pos)> = BTreeSet::new();
         for recurse in [false, true] {
-            for (sel, parent) in &sets {
+            for (sel, parent, under_typename) in &sets {
                 let mut fields = Vec::new();
                 let mut visited = BTreeSet::new();
                 self.fields_in_set(sel, parent.as_deref(), None, &mut visited, &mut fields);
+                self.context = if *under_typename { Some("@__typename") } else { None };
                 self.fields_can_merge(&fields, &mut reported, 0, recurse);
+                self.context = None;
             }
         }
     }
 
     /// every selection set below (and including) `sel`, with the type its fields are selected on
-    fn all_sets(&self, sel: &'a [Selection], parent: Option<String>, out: &mut Vec<(&'a [Selection], Option<String>)>) {
+    fn all_sets(&self, sel: &'a [Selection], parent: Option<String>, under_typename: bool, out: &mut Vec<(&'a [Selection], Option<String>, bool)>) {
         if sel.is_empty() {
             return;
         }
-        out.push((sel, parent.clone()));
+        out.push((sel, parent.clone(), under_typename));
         for s in sel {
             match s {
                 Selection::Field(f) => {
                     let base = self.field_type(f, &parent).map(|t| t.base().to_string()).filter(|b| self.s.is_composite(b));
-                    self.all_sets(&f.sel, base, out);
+                    self.all_sets(&f.sel, base, under_typename || f.name.s == "__typename", out);
                 }
                 Selection::Inline(i) => {
                     let inner = match &i.cond {
@@ -612,7 +690,7 @@ impl<'a> V<'a> {
                         }
                         None => parent.clone(),
                     };
-                    self.all_sets(&i.sel, inner, out);
+                    self.all_sets(&i.sel, inner, under_typename, out);
                 }
                 Selection::Spread(_) => {}
             }
@@ -684,7 +762,10 @@ impl<'a> V<'a> {
                     // 2.a SameResponseShape
                     if !self.same_response_shape(a, b, 0) {
                         if reported.insert(pair) {
-                            self.ec("FieldSelectionMerging", format!("{scope}/{via}/shape"), b.f.pos, format!("fields for key {} have different response shapes", a.f.key()));
+                            // "shape": the two fields' own declared types differ; "subfield-shape": they agree
+                            // and the mismatch is between sub-fields under one key (SameResponseShape step 9)
+                            let kind = if self.own_shapes_agree(a, b) { "subfield-shape" } else { "shape" };
+                            self.ec("FieldSelectionMerging", format!("{scope}/{via}/{kind}"), b.f.pos, format!("fields for key {} have different response shapes", a.f.key()));
                         }
                         continue;
                     }
@@ -715,6 +796,22 @@ impl<'a> V<'a> {
                         self.fields_can_merge(&merged, reported, depth + 1, recurse);
                     }
                 }
+            }
+        }
+    }
+
+    /// steps 1–6 of SameResponseShape only (no descent into the sub-selections)
+    fn own_shapes_agree(&self, a: &MField<'a>, b: &MField<'a>) -> bool {
+        let (Some(ta), Some(tb)) = (self.field_type(a.f, &a.parent), self.field_type(b.f, &b.parent)) else { return true };
+        let (mut ta, mut tb) = (&ta, &tb);
+        loop {
+            match (ta, tb) {
+                (Type::NonNull(x), Type::NonNull(y)) | (Type::List(x), Type::List(y)) => {
+                    ta = x;
+                    tb = y;
+                }
+                (Type::Named(x), Type::Named(y)) => return if self.s.is_leaf(x) || self.s.is_leaf(y) { x == y } else { true },
+                _ => return false,
             }
         }
     }
@@ -807,6 +904,15 @@ fn values_equal(a: &Value, b: &Value) -> bool {
         (Value::List(x), Value::List(y)) => x.len() == y.len() && x.iter().zip(y).all(|(p, q)| values_equal(&p.v, &q.v)),
         (Value::Object(x), Value::Object(y)) => x.len() == y.len() && x.iter().all(|(k, v)| y.iter().any(|(k2, v2)| k.s == k2.s && values_equal(&v.v, &v2.v))),
         (x, y) => x == y,
+    }
+}
+
+fn contains_var(v: &Value) -> bool {
+    match v {
+        Value::Var(_) => true,
+        Value::List(l) => l.iter().any(|x| contains_var(&x.v)),
+        Value::Object(o) => o.iter().any(|(_, x)| contains_var(&x.v)),
+        _ => false,
     }
 }
 
@@ -918,9 +1024,9 @@ type Message { body: String  sender: String }
         // different object parents: sub-fields under one key may be different fields of equal shape
         assert_eq!(r("{ n { ... on T { x: t { k: num } } ... on V { x: t { k: i } } } }"), vec![]);
         // ... but SameResponseShape still recurses: Int vs T
-        assert_eq!(r("{ n { ... on T { x: t { k: num } } ... on V { x: t { k: t { num } } } } }"), vec![("FieldSelectionMerging".to_string(), "same-scope/different-condition/shape".to_string())]);
+        assert_eq!(r("{ n { ... on T { x: t { k: num } } ... on V { x: t { k: t { num } } } } }"), vec![("FieldSelectionMerging".to_string(), "same-scope/different-condition/subfield-shape".to_string())]);
         // ... and Int vs String at depth
-        assert_eq!(r("{ n { ... on T { x: t { k: num } } ... on V { x: t { k: str } } } }"), vec![("FieldSelectionMerging".to_string(), "same-scope/different-condition/shape".to_string())]);
+        assert_eq!(r("{ n { ... on T { x: t { k: num } } ... on V { x: t { k: str } } } }"), vec![("FieldSelectionMerging".to_string(), "same-scope/different-condition/subfield-shape".to_string())]);
         // same (interface) parent: step 2.b.iv merges the two sub-selection sets
         assert_eq!(r("{ n { t { k: num } t { k: i } } }"), vec![("FieldSelectionMerging".to_string(), "merged-subselection/same-condition/field".to_string())]);
         // "any selection set defined in the document": a nested set is checked in its own right
